@@ -49,3 +49,6 @@ func VerifReceiveFile(r io.Reader, targetFile, resForkFile, infoFork, counterWri
 }
 
 func (f *fileWrapper) VerifFfo() *flattenedFileObject { return f.Ffo }
+
+// VerifRegister sends one tracker registration the way registerWithTrackers does for each configured tracker.
+func VerifRegister(tracker string, tr io.Reader) error { return register(&RealDialer{}, tracker, tr) }
